@@ -105,12 +105,17 @@ def replay(ctx, obj, kinds):
         ctx.violation("replay", obj.get("what", "replayed case still fails"), dict(obj, model=m, observed=o))
         bad = True
     kf_ids = {k["id"] for k in ctx.kf}
+    known = []
     for f in load_findings(ctx, "conc-replay"):
         kid = conckf.classify(f)
         print("replay: %s on %s: %s -> class %s" % (f["kind"], f["fs"], f["observed"].split(" | ")[0:2], kid))
         if f["kind"] in kinds and (kid is None or kid not in kf_ids):
             ctx.violation("replay", obj.get("what", "replayed case still fails"), dict(obj, observed=f["observed"]))
             bad = True
-    if not bad:
+        elif f["kind"] in kinds:
+            known.append(kid)
+    if known and not bad:
+        print("replay: the deviation reproduces and falls in the listed known finding(s) %s" % ", ".join(sorted(set(known))))
+    elif not bad:
         print("replay: no deviation on this case now (linearizable / no deadlock, model and implementation agree)")
     return ctx.finish(write_evidence=False)
